@@ -100,7 +100,9 @@ def check(ctx: Ctx) -> str:
         ctx.check(di.get(p) == dt.get(p), f"new:default:{p}", "environment:Template.__new__", f"default of {p}", f"default of {p} is {dt.get(p)} in Template.__new__ but {di.get(p)} in Environment.__init__", tn.loc())
     gse = repo.func("environment:get_spontaneous_environment")
     s = ast.unparse(gse.node)
-    ctx.check("cls(*args)" in s and "env.shared = True" in s and "lru_cache" in " ".join(gse.decorators()), "spontaneous", "environment:get_spontaneous_environment", "shared cached environment", "spontaneous environments must be built with cls(*args), marked shared and memoised", gse.loc())
+    made_ = [a for a in ast.walk(gse.node) if isinstance(a, ast.Assign) and len(a.targets) == 1 and isinstance(a.targets[0], ast.Name) and ast.unparse(a.value) == "cls(*args)"]
+    ev_ = made_[0].targets[0].id if len(made_) == 1 else "env"  # type: ignore[attr-defined]
+    ctx.check(len(made_) == 1 and f"{ev_}.shared = True" in s and f"return {ev_}" in s and "lru_cache" in " ".join(gse.decorators()), "spontaneous", "environment:get_spontaneous_environment", "shared cached environment", "spontaneous environments must be built with cls(*args), marked shared and memoised", gse.loc())
 
     ctx.rule("R2", "overlay accepts exactly __init__'s parameters and applies each one (generic setattr loop, or its explicit branch for cache_size / extensions / enable_async)")
     ov = repo.func("environment:Environment.overlay")
